@@ -405,8 +405,10 @@ def run_check(prop: str, tier: str, spec: dict) -> int:
         "wall_s": round(wall, 2),
         "violations": n_viol,
     }
-    os.makedirs(os.path.join(K.VERIF_ROOT, "evidence"), exist_ok=True)
-    with open(os.path.join(K.VERIF_ROOT, "evidence", f"{prop}.json"), "w") as f:
+    # VERIF_EVIDENCE_DIR is set by checks/try_patch.sh so that runs against a seeded change never overwrite the evidence of the unchanged tree
+    ev_dir = os.environ.get("VERIF_EVIDENCE_DIR") or os.path.join(K.VERIF_ROOT, "evidence")
+    os.makedirs(ev_dir, exist_ok=True)
+    with open(os.path.join(ev_dir, f"{prop}.json"), "w") as f:
         json.dump(K._plain(evidence), f, indent=1, sort_keys=True)
     print(
         f"[{prop} {tier}] runs={agg['runs']} distinct={len(agg['sigs'])} steps={agg['steps']} violations={n_viol} "
